@@ -470,7 +470,7 @@ class MetadorGroup(MetadorNode):
             self._guard_path(dest)
             dst_path = dest
         elif isinstance(dest, MetadorGroup):
-            dst_path = dest.name + f"/{dst_name}"
+            dst_path = dest.name.rstrip("/") + f"/{dst_name}"
             self._guard_path(dst_path)
         else:
             raise ValueError("Copy dest must be path or Group!")
